@@ -68,6 +68,9 @@ impl Workspace {
         let main = self.ensure_main()?;
         let ast = parsing::parse_string(main)?;
         self.ast = Some(ast);
+        // whatever was derived from the previous tree is stale now
+        self.analisis = None;
+        self.tir.clear();
         Ok(())
     }
 
